@@ -305,12 +305,41 @@ def _detuple(a):
 
 
 # ------------------------------------------------------------------ caller-owned objects
+class _OutputFcn:
+    """An output function given as a callable *object* (its identity and its state belong to the caller)."""
+
+    def __init__(self):
+        self.calls = 0
+
+    def __call__(self, x, state):
+        self.calls += 1
+        return False
+
+
+def object_options(_):
+    """Options whose value is an object: BADS must use exactly the supplied object (identity), and it must take effect."""
+    out = []
+    n = 0
+    for D in (1, 2):
+        n += 1
+        cb = _OutputFcn()
+        b = construct(D, {"display": "off", "output_fcn": cb, "max_fun_evals": 12, "random_seed": 1})
+        if b.options["output_fcn"] is not cb:
+            out.append(("user-option-object-replaced/output_fcn", "options['output_fcn'] is not the supplied object", [D]))
+        b.optimize()
+        if cb.calls == 0:
+            out.append(("user-option-without-effect/output_fcn", "the supplied output_fcn object was never called", [D]))
+    return n, out
+
+
 def caller_owned(case):
     from pybads import BADS
 
     geo, spelling, D, run = case
     if geo == "log":
         lb, ub, plb, pub, x0 = [1e-3] * D, [1e3] * D, [1e-2] * D, [1e2] * D, [5.0] * D
+    elif geo == "linub":   # start exactly on the upper bound (it is moved inside - in a copy)
+        lb, ub, plb, pub, x0 = [-5.0] * D, [5.0] * D, [-2.0] * D, [2.0] * D, [5.0] * D
     else:
         lb, ub, plb, pub, x0 = [-5.0] * D, [5.0] * D, [-2.0] * D, [2.0] * D, [1.0] * D
     conv = {"array2d": lambda v: np.array(v, float).reshape(1, D), "array1d": lambda v: np.array(v, float), "list": lambda v: list(v)}[spelling]
@@ -343,6 +372,8 @@ def replay(case, key):
         n, out = _fresh(("pair_block", case["block"]))
     elif kind == "allcore":
         n, out = _fresh(("all_core", [2]))
+    elif kind == "objopt":
+        n, out = _fresh(("object_options", 0))
     elif kind == "seedeffect":
         n, out = _fresh(("seed_effect", 0))
     elif kind == "unknown":
@@ -378,6 +409,10 @@ def run(ctx):
     N += n
     for k, d, c in out:
         rep.violation("option value is not what the statement requires (all core overrides)", k, d, dict(kind="allcore"))
+    n, out = _fresh(("object_options", 0))
+    N += n
+    for k, d, c in out:
+        rep.violation("a supplied option object is not used as given", k, d, dict(kind="objopt"))
     n, out = _fresh(("seed_effect", 0))
     N += n
     for k, d, c in out:
@@ -386,7 +421,7 @@ def run(ctx):
     N += n
     for k, d, c in out:
         rep.violation("unknown option name not rejected with ValueError", k, d, dict(kind="unknown"))
-    owned = [(g, sp, D, run_) for g in ("lin", "log") for sp in ("array2d", "array1d", "list") for D in (1, 2) for run_ in (False, True)]
+    owned = [(g, sp, D, run_) for g in ("lin", "log", "linub") for sp in ("array2d", "array1d", "list") for D in (1, 2) for run_ in (False, True)]
     for n, out in pmap(_fresh, [("caller_owned", list(o)) for o in owned]):
         N += n
         for k, d, c in out:
